@@ -978,7 +978,8 @@ Qed.
 (* L < M on every entry point that reads the result (review finding 2): whatever the matrix holds
    (no [Striped] / [Padded] hypothesis at all), a scan of a sequence shorter than the motif is the
    empty score matrix on every pipeline; its iterator yields None for every next() / next_back(),
-   len() = 0, unstripe() = [] and Index<usize> panics for EVERY index (`index % rows` with 0 rows). *)
+   len() = 0, unstripe() = [] and Index<usize> panics for EVERY index (`index / self.data.rows()` with 0 rows:
+   division by zero, panic site 20). *)
 Theorem C01_scores_short_iter_index :
   forall (T : Type) (add : T -> T -> T) (zero : T) (C : nat)
          (pssm : list (list T)) (q : sseq) (ops : list bool) (i : nat),
